@@ -4,6 +4,7 @@
 -/
 import Rosmar.Step
 import Rosmar.Registry
+import Rosmar.Query
 namespace Rosmar.Driver
 open Rosmar
 
